@@ -14,9 +14,9 @@ def nontrivial(req, obs):
 
 PROP = {
     "id": "C11",
-    "lean_targets": ['WmModel.Props.C11'],
+    "lean_targets": ["WmModel.Props.C07Locks", 'WmModel.Props.C11'],
     "audit_module": "Audit.C11",
-    "theorems": ['Wm.GcTopic.exactly_one_sender', 'Wm.GcTopic.sender_count_eq', 'Wm.GcTopic.mid_publish', 'Wm.GcTopic.subscribe_excluded_during_publish'],
+    "theorems": ["Wm.GcReg.writer_excludes_readers", "Wm.GcReg.writers_exclusive", "Wm.GcReg.topic_mutex_exclusive", "Wm.GcReg.publish_and_subscribe_regions_exclusive", 'Wm.GcTopic.exactly_one_sender', 'Wm.GcTopic.sender_count_eq', 'Wm.GcTopic.mid_publish', 'Wm.GcTopic.subscribe_excluded_during_publish'],
     "tie_theorems": [],
     "harness": "c11",
     "race": True,
